@@ -10,6 +10,7 @@ package rpc
 // the theorems are stated with) judge it.
 
 import (
+	"bufio"
 	"bytes"
 	"errors"
 	"fmt"
@@ -130,6 +131,54 @@ func payloadNonce(frame []byte) string {
 	return "-"
 }
 
+// verifDescribeFrame: what NextFrame returned, for the site-level trace:
+//   resp <seq> <found 0/1> <payload nonce> <appErr 0/1> | call <seq> <known 0/1> <arg nonce> | notify <known> <arg nonce>
+//   | cancel <seq> | none   — followed by the class of the error (nil / notfound / fatal)
+func verifDescribeFrame(m rpcMessage, err error) string {
+	cls := "nil"
+	if err != nil {
+		if shouldContinue(err) {
+			cls = "notfound"
+		} else {
+			cls = "fatal"
+		}
+	}
+	b01 := func(b bool) int {
+		if b {
+			return 1
+		}
+		return 0
+	}
+	argNonce := func(a interface{}) string {
+		if p, ok := a.(*interface{}); ok && p != nil {
+			return nonceOf(*p)
+		}
+		return nonceOf(a)
+	}
+	switch x := m.(type) {
+	case nil:
+		return "none " + cls
+	case *rpcResponseMessage:
+		pay := "-"
+		seq := int(x.SeqNo())
+		if x.c != nil {
+			pay = nonceOf(x.c.res)
+		} else if nf, ok := unboxRPCError(err).(CallNotFoundError); ok {
+			seq = int(nf.seqno)
+		}
+		return fmt.Sprintf("resp %d %d %s %d %s", seq, b01(x.c != nil), pay, b01(x.responseErr != nil), cls)
+	case *rpcCallMessage:
+		return fmt.Sprintf("call %d %d %s %s", int(x.SeqNo()), b01(x.Err() == nil), argNonce(x.arg), cls)
+	case *rpcCallCompressedMessage:
+		return fmt.Sprintf("call %d %d %s %s", int(x.SeqNo()), b01(x.Err() == nil), argNonce(x.arg), cls)
+	case *rpcNotifyMessage:
+		return fmt.Sprintf("notify %d %s %s", b01(x.Err() == nil), argNonce(x.arg), cls)
+	case *rpcCancelMessage:
+		return fmt.Sprintf("cancel %d %s", int(x.SeqNo()), cls)
+	}
+	return "other " + cls
+}
+
 type endpoint struct {
 	id   int
 	conn *simConn
@@ -210,6 +259,7 @@ func nonceOf(v interface{}) string {
 }
 
 func (s *session) newEndpoint(id int, c *simConn) *endpoint {
+	verifSetEp(id) // the goroutines the constructors start work for this endpoint
 	e := &endpoint{id: id, conn: c}
 	c.onWrite = func(p []byte) error {
 		verifPoint("conn.Write")
@@ -227,6 +277,13 @@ func (s *session) newEndpoint(id int, c *simConn) *endpoint {
 	c.onWritten = func(n, total int) {
 		if n != total {
 			s.r.ev("wrp %d %d %d", id, n, total)
+		}
+	}
+	c.onResult = func(err error) {
+		if err == nil {
+			verifTrace("wres %d ok", id)
+		} else {
+			verifTrace("wres %d err", id)
 		}
 	}
 	e.xp = NewTransport(c, sessLogFactory{s.r, id}, &recStorage{s.r, id}, nil, s.max).(*transport)
@@ -304,6 +361,7 @@ func (s *session) newEndpoint(id int, c *simConn) *endpoint {
 // although other goroutines may run between the reads (the state only moves
 // from open to closed): Err, Done, IsConnected, Done, Err.
 func (s *session) observe(e int) string {
+	verifSetEp(e)
 	done := func() int {
 		select {
 		case <-s.ep[e].srv.Done():
@@ -379,6 +437,8 @@ type unencodable struct {
 
 func (s *session) runOp(op sessOp, ctx context.Context) {
 	e := s.ep[op.ep]
+	verifSetEp(op.ep)
+	verifTrace("op %d to=%d cancel=%v", op.caller, int64(op.timeout/time.Millisecond), op.cancel)
 	var arg interface{} = op.nonce
 	if op.pad > 0 {
 		arg = map[string]interface{}{"n": op.nonce, "pad": strings.Repeat("x", op.pad)}
@@ -607,7 +667,9 @@ func runSession(g *prng, p sessPlan, script []string) (hist []string, trace []st
 	r.spawn("setup", func() {
 		s.ep[0] = s.newEndpoint(0, a)
 		s.ep[1] = s.newEndpoint(1, b)
+		verifSetEp(0)
 		s.ep[0].srv.Run()
+		verifSetEp(1)
 		s.ep[1].srv.Run()
 		ready = true
 	})
@@ -639,6 +701,7 @@ func runSession(g *prng, p sessPlan, script []string) (hist []string, trace []st
 			k := k
 			name := fmt.Sprintf("closer%d", k)
 			r.spawn(name, func() {
+				verifSetEp(ep)
 				r.ev("clb %d ext%d", ep, k)
 				s.ep[ep].xp.Close()
 				r.ev("cle %d ext%d", ep, k)
@@ -826,7 +889,9 @@ func runSession(g *prng, p sessPlan, script []string) (hist []string, trace []st
 			r.ev("%s", s.observe(e))
 			r.ev("pend %d %d", e, len(s.ep[e].xp.calls.calls))
 		}
+		verifTrace("teardown")
 		for e := 0; e < 2; e++ {
+			verifSetEp(e)
 			r.ev("clb %d teardown", e)
 			s.ep[e].xp.Close()
 			r.ev("cle %d teardown", e)
@@ -871,6 +936,14 @@ func init() {
 		if c.tier == "thorough" {
 			faStride = 0
 		}
+		var tlogFile *bufio.Writer
+		if p := os.Getenv("VERIF_TLOG_FILE"); p != "" {
+			if fh, err := os.Create(p); err == nil {
+				tlogFile = bufio.NewWriterSize(fh, 1<<20)
+				defer fh.Close()
+				defer tlogFile.Flush()
+			}
+		}
 		synctest.Test(c.t, func(t *testing.T) {
 			g := newPrng(c.seed, 31)
 			for i := 0; i < c.n; i++ {
@@ -908,6 +981,9 @@ func init() {
 				if os.Getenv("VERIF_TLOG") != "" {
 					fmt.Printf("TLOG %d %s\n%s\n", i, fl, strings.Join(lastTlog, "\n"))
 				}
+				if tlogFile != nil {
+					fmt.Fprintf(tlogFile, "TLOG %d %s\n%s\n", i, fl, strings.Join(lastTlog, "\n"))
+				}
 				if os.Getenv("VERIF_TRACE") != "" {
 					fmt.Printf("TRACE %d %s\n", i, strings.Join(trace, " "))
 				}
@@ -916,6 +992,9 @@ func init() {
 			c.ops.Flush()
 			c.out.Flush()
 			c.meta.Flush()
+			if tlogFile != nil {
+				tlogFile.Flush()
+			}
 			if leaks > 0 {
 				// leaked goroutines stay blocked for ever: leaving the bubble would be reported as a deadlock
 				os.Exit(0)
